@@ -4,7 +4,7 @@ ICMP/TCP stacks) are traced by the CLI built from /repo's working tree with real
 sockets; the oracle is the topology itself.
 
 env: VERIF_OUT, VERIF_TIER, VERIF_SEED, VERIF_GO, VERIF_REPO, VERIF_REPLAY (optional)
-exit 0 ok / 1 violation (failure-C13-0.json written) / 2 inconclusive
+exit 0 ok / 1 violation (failure-<property>-<job>-0.json written) / 2 inconclusive
 """
 import json
 import os
@@ -467,7 +467,7 @@ def main():
             except Exception:
                 pass
         json.dump({"property": PROP, "test": stats["name"], "scenario": spec, "diffs": [{"prop": PROP, "sig": "race-report" if RACE else "topology-mismatch", "msg": v} for v in first["violations"][:6]],
-                   "results": first["results"]}, open(os.path.join(OUT, "failure-%s-0.json" % PROP), "w"), indent=1)
+                   "results": first["results"]}, open(os.path.join(OUT, "failure-%s-%s-0.json" % (PROP, "C13KernelRace" if RACE else "C13Kernel")), "w"), indent=1)
         for v in first["violations"][:6]:
             print("%s [%s] %s" % (PROP, "race-report" if RACE else "topology-mismatch", v))
         print("--- FAIL: C13Kernel (%d of %d topologies)" % (len(failing), len(results)))
